@@ -70,7 +70,7 @@ def run_property(prop, tier, repo=None, write=True):
             else:
                 results.append(r)
         canary_report = []
-        from . import canary
+        from . import canary, canary_defs  # noqa: F401  (registers the canaries)
 
         canary_report = canary.run_for(prop, tier)
     except AnalysisIncomplete as e:
